@@ -220,13 +220,18 @@ class BBAN(common.Base):
             bank_code_length = ranges[Component.BANK_CODE].length
             branch_code_length = ranges[Component.BRANCH_CODE].length
 
-            if len(bank_code) >= bank_code_length + branch_code_length:
+            if (
+                len(bank_code) >= bank_code_length + branch_code_length
+                and Component.BRANCH_CODE not in values
+            ):
                 start = bank_code_length
                 end = start + branch_code_length
                 components[Component.BRANCH_CODE] = bank_code[start:end]
 
             for key, value in components.items():
-                components[key] = value[: ranges[key].length]
+                # Values provided by the caller are taken as is and never cut to size.
+                if key not in values:
+                    components[key] = value[: ranges[key].length]
 
             try:
                 return cls.from_components(
